@@ -169,6 +169,8 @@ type c09Book struct {
 	sealedBy  map[uint64]common.Address // height -> sealer of the accepted header
 	startH    uint64
 	lastEpoch [][]byte // validator list carried by the last accepted epoch header
+	lastEpochCoinbase common.Address // sealer of the last accepted epoch header
+	presCoinbase      common.Address // sealer of the epoch header that carried presVals
 	presVals  [][]byte // the validator list the RULE prescribes now (harness bookkeeping, never read from the client)
 	prevVals  [][]byte // the prescribed list before the last switch
 	switchAt  uint64   // height of the last prescribed switch
@@ -689,9 +691,16 @@ func (w *c09World) oracle(r *Rec, before *bsctypes.ClientState, h *bsctypes.Head
 	if signer != common.BytesToAddress(h.Coinbase) {
 		w.find(r, "C09:accepted-signer-not-coinbase", "sealer differs from coinbase", signer.Hex(), hx(h.Coinbase))
 	}
-	set := c09Distinct(before.Validators)
-	if !set[signer] {
+	if !c09Distinct(before.Validators)[signer] {
 		w.find(r, "C09:accepted-non-member", "sealer is not in the current validator set", signer.Hex(), "member of the set")
+	}
+	// N, the recent-signer window, the turn and the switch offset are evaluated on the list the RULE prescribes — the byte
+	// list the last epoch header carried, every 20-byte entry of it (zero address, 0xff..ff, duplicates, any order) —
+	// never on what the client stores. As in the code (and upstream Parlia) the window and the turn count DISTINCT
+	// addresses, the switch offset uses the length of the list.
+	set := c09Distinct(w.presVals)
+	if len(set) == 0 {
+		set = c09Distinct(before.Validators)
 	}
 	n := len(set)
 	// has not sealed any of the last floor(N/2) blocks
@@ -741,7 +750,11 @@ func (w *c09World) oracle(r *Rec, before *bsctypes.ClientState, h *bsctypes.Head
 	}
 	if num%before.Epoch == 0 {
 		w.lastEpoch, _ = c09ParseVals(h.Extra)
+		w.lastEpochCoinbase = signer
 		r.Count("accepted.epoch-header")
+		for _, c := range c09ListClasses(w.lastEpoch, signer) {
+			r.Count("oddlist.announced." + c)
+		}
 	}
 	if !c09SameList(after.Validators, before.Validators) {
 		r.Count("accepted.valset-changed")
@@ -781,8 +794,11 @@ func (w *c09World) oracle(r *Rec, before *bsctypes.ClientState, h *bsctypes.Head
 				r.Count("valset.handover.Nto1")
 			}
 			w.prevVals, w.switchAt = w.presVals, num
+			for _, c := range c09ListClasses(w.lastEpoch, w.lastEpochCoinbase) {
+				r.Count("oddlist.switched." + c)
+			}
 		}
-		w.presVals = w.lastEpoch
+		w.presVals, w.presCoinbase = w.lastEpoch, w.lastEpochCoinbase
 		if newN > w.maxN {
 			w.maxN = newN
 		}
@@ -795,8 +811,13 @@ func (w *c09World) oracle(r *Rec, before *bsctypes.ClientState, h *bsctypes.Head
 		w.find(r, "C09:valset-differs-from-rule:"+mech, "after an accepted header the client's validator set is not the one the rule prescribes",
 			c09List(after.Validators), c09List(w.presVals))
 	}
+	if w.switchAt != 0 && num > w.switchAt && num-w.switchAt <= uint64(len(c09Distinct(w.presVals))/2+1) {
+		for _, c := range c09ListClasses(w.presVals, w.presCoinbase) { // blocks of the first window after the switch
+			r.Count("oddlist.window-after-switch." + c)
+		}
+	}
 	w.sealedBy[num] = signer
-	w.rawAfter[num] = len(c09Distinct(after.Validators))
+	w.rawAfter[num] = len(c09Distinct(w.presVals))
 	w.head = h
 }
 
@@ -820,6 +841,45 @@ func (w *c09World) abandoned(r *Rec) {
 			return
 		}
 	}
+}
+
+// c09ListClasses: unusual but well-formed shapes of a carried validator list
+func c09ListClasses(list [][]byte, coinbase common.Address) []string {
+	var out []string
+	seen := map[common.Address]bool{}
+	zero, ff, dup, cb, sorted := false, false, false, false, true
+	all := bytes.Repeat([]byte{0xff}, 20)
+	for i, v := range list {
+		a := common.BytesToAddress(v)
+		zero = zero || a == (common.Address{})
+		ff = ff || bytes.Equal(v, all)
+		dup = dup || seen[a]
+		seen[a] = true
+		cb = cb || a == coinbase
+		if i > 0 && bytes.Compare(list[i-1], v) >= 0 {
+			sorted = false
+		}
+	}
+	if zero {
+		out = append(out, "zero-address")
+	}
+	if ff {
+		out = append(out, "all-ones-address")
+	}
+	if dup {
+		out = append(out, "duplicate")
+	}
+	if cb {
+		out = append(out, "contains-coinbase")
+	} else {
+		out = append(out, "without-coinbase")
+	}
+	if sorted {
+		out = append(out, "sorted")
+	} else {
+		out = append(out, "unsorted")
+	}
+	return out
 }
 
 // c09ParseVals: the harness' own reading of the validator list an epoch header carries (the oracle must not depend on
